@@ -46,6 +46,11 @@ pub fn yield_point(label: u32) {
     x ^= x << 13;
     x ^= x >> 7;
     x ^= x << 17;
+    if x % 61 == 7 {
+        // rarely, long enough for a whole flush or compaction to pass
+        std::thread::sleep(std::time::Duration::from_millis(2 + x % 4));
+        return;
+    }
     match x % 8 {
         0 => std::thread::sleep(std::time::Duration::from_micros(50 + x % 200)),
         1 | 2 => std::thread::yield_now(),
